@@ -96,4 +96,251 @@ theorem invList_cons (c : RBox) (cs : List RBox) (hc : ∀ y0 adjIn, Inv y0 adjI
   · simp only [botList, b5]; exact b4
   · simp only [thruList, hthru]
 
+theorem cwc_true {r : RStyle} (h : r.cwc = true) : r.bt = 0 ∧ r.pt = 0 ∧ r.isRoot = false := by
+  simp [RStyle.cwc] at h
+  exact ⟨h.1.1, h.1.2, h.2⟩
+
+/-- the VBox `vtree` builds for a finished box -/
+def finV (r : RStyle) (F : VRes) : VBox :=
+  { idx := 0, top := F.tree.box.y + F.tree.box.mt, mt := F.tree.box.mt, mb := F.tree.box.mb, bt := F.tree.box.bt,
+    pt := F.tree.box.pt, pb := F.tree.box.pb, bb := F.tree.box.bb, h := F.tree.box.h, height := r.height,
+    minH := r.minH, maxH := r.maxH, isRoot := r.isRoot }
+
+theorem vtree_finish (r : RStyle) (cs : List RBox) (y0 : Rat) (adjIn : List Rat) (leaf : Bool) (l : VLoop) (kids : List LTree) :
+    vtree (.mk r cs) (vFinish r y0 adjIn leaf l kids).tree =
+      .mk (finV r (vFinish r y0 adjIn leaf l kids)) (vtreeList cs kids) := by
+  simp [vFinish, vtree, finV, LTree.box]
+
+theorem finV_topBarrier (r : RStyle) (y0 : Rat) (adjIn : List Rat) (leaf : Bool) (l : VLoop) (kids : List LTree) :
+    (finV r (vFinish r y0 adjIn leaf l kids)).topBarrier = !r.cwc := by
+  simp [finV, vFinish, VBox.topBarrier, RStyle.cwc, LTree.box]
+
+theorem finV_top (r : RStyle) (y0 : Rat) (adjIn : List Rat) (leaf : Bool) (l : VLoop) (kids : List LTree) :
+    (finV r (vFinish r y0 adjIn leaf l kids)).top =
+      if r.cwc then y0 + collapseMargin l.p else y0 + collapseMargin (adjIn ++ [r.mt]) := by
+  simp only [finV, vFinish, LTree.box]
+  split <;> grind
+
+
+theorem ne_auto_eq (h : MF) : (h != MF.auto) = !h.isAuto := by cases h <;> rfl
+theorem beq_auto_eq (h : MF) : (h == MF.auto) = h.isAuto := by cases h <;> rfl
+
+theorem finV_botBarrier (r : RStyle) (y0 : Rat) (adjIn : List Rat) (leaf : Bool) (l : VLoop) (kids : List LTree) :
+    (finV r (vFinish r y0 adjIn leaf l kids)).botBarrier = (r.bb != 0 || r.pb != 0 || r.isRoot) := by
+  simp [finV, vFinish, VBox.botBarrier, LTree.box]
+
+/-- loop state after a child that did not collapse through -/
+def nextSt (st : VLoop) (rc : VRes) : VLoop :=
+  { y := rc.tree.box.borderBottom, adj := rc.adj ++ [rc.tree.box.mb], aliased := false,
+    p := if st.aliased then rc.pOut else st.p }
+
+theorem inv_node (r : RStyle) (c : RBox) (cs : List RBox) (hc : ∀ y0 adjIn, Inv y0 adjIn c) (hcs : InvList cs) :
+    ∀ y0 adjIn, Inv y0 adjIn (.mk r (c :: cs)) := by
+  intro y0 adjIn
+  unfold Inv
+  have hv : vbox y0 adjIn (.mk r (c :: cs)) =
+      vFinish r y0 adjIn false (vlist (vStart r y0 adjIn) (c :: cs)).1 (vlist (vStart r y0 adjIn) (c :: cs)).2 := by
+    rw [vbox]; rfl
+  rw [hv, vtree_finish]
+  obtain ⟨h1, h2, h3, h4, h5, h6⟩ := hc (vStart r y0 adjIn).y (vStart r y0 adjIn).adj
+  generalize hr : vbox (vStart r y0 adjIn).y (vStart r y0 adjIn).adj c = rc at *
+  generalize hTc : vtree c rc.tree = Tc at *
+  have hvl : vlist (vStart r y0 adjIn) (c :: cs) =
+      ((vlist (nextSt (vStart r y0 adjIn) rc) cs).1,
+       rc.tree :: (vlist (nextSt (vStart r y0 adjIn) rc) cs).2) := by
+    rw [vlist]
+    simp only [hr, h1]
+    rfl
+  rw [hvl]
+  generalize hst1 : nextSt (vStart r y0 adjIn) rc = st1 at *
+  have hst1y : st1.y = Tc.v.bottom := by rw [← hst1, ← hTc, vtree_v_bottom]; rfl
+  have hst1a : st1.adj = botGroup Tc := by rw [← hst1, ← h5, ← hTc, vtree_v_mb]; rfl
+  have hst1al : st1.aliased = false := by rw [← hst1]; rfl
+  have hst1p : st1.p = if (vStart r y0 adjIn).aliased then rc.pOut else (vStart r y0 adjIn).p := by rw [← hst1]; rfl
+  generalize hl : vlist st1 cs = lk at *
+  simp only [vtreeList, hTc]
+  generalize hV : finV r (vFinish r y0 adjIn false lk.1 (rc.tree :: lk.2)) = V at *
+  obtain ⟨a1, a2, a3, a4, lastT, b1, b2, b3, b4, b5⟩ := hcs V st1 Tc hst1al hst1y hst1a h2
+  rw [hl] at a1 a2 a3 a4 b1 b2 b3 b4 b5
+  generalize hTs : vtreeList cs lk.2 = Ts at *
+  -- p of the finished loop
+  have hp : lk.1.p = adjIn ++ (r.mt :: if r.cwc then topGroup Tc else []) := by
+    rw [a3, hst1p]
+    by_cases hcwc : r.cwc = true
+    · simp only [vStart, hcwc, if_true] at h3 ⊢
+      rw [h3]; simp
+    · have hcwc' : r.cwc = false := by simpa using hcwc
+      simp [vStart, hcwc']
+  have hVtb : V.topBarrier = !r.cwc := by rw [← hV]; exact finV_topBarrier _ _ _ _ _ _
+  have hVbb : V.botBarrier = (r.bb != 0 || r.pb != 0 || r.isRoot) := by rw [← hV]; exact finV_botBarrier _ _ _ _ _ _
+  have hVmt : V.mt = r.mt := by rw [← hV]; simp [finV, vFinish, LTree.box]
+  have hVmb : V.mb = r.mb := by rw [← hV]; simp [finV, vFinish, LTree.box]
+  have hVh : V.height = r.height := by rw [← hV]; rfl
+  have hVtop : V.top = if r.cwc then y0 + collapseMargin lk.1.p else y0 + collapseMargin (adjIn ++ [r.mt]) := by
+    rw [← hV]; exact finV_top _ _ _ _ _ _
+  have htg : topGroup (.mk V (Tc :: Ts)) = r.mt :: if r.cwc then topGroup Tc else [] := by
+    simp only [topGroup, topList, h2, hVtb, hVmt]
+    cases r.cwc <;> simp
+  refine ⟨?_, ?_, ?_, ?_, ?_, ?_⟩
+  · simp only [vFinish, Bool.false_eq_true, if_false]; split <;> rfl
+  · simp only [thru, b5]
+    split
+    · rfl
+    · split <;> rfl
+  · show lk.1.p = _
+    rw [hp, htg]
+  · show V.top = _
+    rw [htg, hVtop]
+    by_cases hcwc : r.cwc = true
+    · simp only [hcwc, if_true, hp]
+    · have hcwc' : r.cwc = false := by simpa using hcwc
+      simp only [hcwc', if_false]
+      simp
+  · simp only [botGroup, b4, hVbb, hVh, ne_auto_eq, hVmb, VTree.v]
+    simp only [vFinish, b3]
+    cases (r.bb != 0 || r.pb != 0 || r.isRoot) <;> cases r.height.isAuto <;> simp
+  · have hVbt : V.bt = r.bt := by rw [← hV]; simp [finV, vFinish, LTree.box]
+    have hVpt : V.pt = r.pt := by rw [← hV]; simp [finV, vFinish, LTree.box]
+    have hVminH : V.minH = r.minH := by rw [← hV]; rfl
+    have hVmaxH : V.maxH = r.maxH := by rw [← hV]; rfl
+    have hstep : stepChild V Walk.start Tc = { prev := some Tc, pending := [], nested := false, viols := [] } := by
+      simp only [stepChild, h2, Walk.start, hVtb]
+      by_cases hcwc : r.cwc = true
+      · have e : Tc.v.top = V.top := by
+          rw [h4, hVtop, hp]
+          simp [vStart, hcwc]
+        simp only [hcwc, Bool.not_true, Bool.false_eq_true, if_false]
+        rw [expectEq_of_eq e]; rfl
+      · have hcwc' : r.cwc = false := by simpa using hcwc
+        have e : Tc.v.top = V.contentTop + collapseSpec ([] ++ topGroup Tc) := by
+          rw [h4, VBox.contentTop, hVtop, hVbt, hVpt, ← collapseMargin_eq_spec]
+          simp only [vStart, hcwc', Bool.false_eq_true, if_false, List.nil_append]
+          grind
+        simp only [hcwc', Bool.not_false, if_true]
+        rw [expectEq_of_eq e]; rfl
+    have hVhh : V.h = clampH (match r.height with
+        | .auto => (if (r.bb != 0 || r.pb != 0 || r.isRoot) = true then lk.1.y + collapseMargin lk.1.adj else lk.1.y)
+                    - (V.top + r.pt + r.bt)
+        | .val v => v) r.minH r.maxH := by
+      rw [← hV]
+      simp only [finV, vFinish, LTree.box, Bool.false_eq_true, if_false]
+      cases hh : r.height with
+      | val v => simp
+      | auto =>
+        simp only [MF.isAuto, if_true]
+        congr 1
+        split <;> grind
+    simp only [stackViols, stackViolsList, h6, a4, walkChildren, hstep, a1, List.append_nil, List.nil_append]
+    simp only [heightCheck, hVh, b1, a2, hVbb, hVminH, hVmaxH]
+    cases hh : r.height with
+    | val v =>
+      simp only [hh] at hVhh
+      exact expectEq_of_eq hVhh
+    | auto =>
+      simp only [hh] at hVhh
+      apply expectEq_of_eq
+      rw [hVhh, ← b2, ← b3, VBox.contentTop, hVbt, hVpt, ← collapseMargin_eq_spec, List.append_nil]
+      congr 1
+      split <;> grind
+
+
+theorem inv_leaf (r : RStyle) (hs : r.emptyThrough = false) : ∀ y0 adjIn, Inv y0 adjIn (.mk r []) := by
+  intro y0 adjIn
+  unfold Inv
+  have hv : vbox y0 adjIn (.mk r []) = vFinish r y0 adjIn true (vStart r y0 adjIn) [] := by
+    rw [vbox]; rfl
+  rw [hv, vtree_finish]
+  simp only [vtreeList]
+  generalize hV : finV r (vFinish r y0 adjIn true (vStart r y0 adjIn) []) = V
+  have hVtb : V.topBarrier = !r.cwc := by rw [← hV]; exact finV_topBarrier _ _ _ _ _ _
+  have hVbb : V.botBarrier = (r.bb != 0 || r.pb != 0 || r.isRoot) := by rw [← hV]; exact finV_botBarrier _ _ _ _ _ _
+  have hVmt : V.mt = r.mt := by rw [← hV]; simp [finV, vFinish, LTree.box]
+  have hVmb : V.mb = r.mb := by rw [← hV]; simp [finV, vFinish, LTree.box]
+  have hVh : V.height = r.height := by rw [← hV]; rfl
+  have hVbt : V.bt = r.bt := by rw [← hV]; simp [finV, vFinish, LTree.box]
+  have hVpt : V.pt = r.pt := by rw [← hV]; simp [finV, vFinish, LTree.box]
+  have hVminH : V.minH = r.minH := by rw [← hV]; rfl
+  have hVmaxH : V.maxH = r.maxH := by rw [← hV]; rfl
+  have hVtop : V.top = y0 + collapseMargin (adjIn ++ [r.mt]) := by
+    rw [← hV, finV_top]
+    by_cases hcwc : r.cwc = true <;> simp [vStart, hcwc]
+  have hp : (vStart r y0 adjIn).p = adjIn ++ [r.mt] := by simp only [vStart]; split <;> rfl
+  have hthru : thru (.mk V []) = none := by
+    simp only [thru, hVtb, hVbb, hVminH, hVh]
+    simp only [RStyle.emptyThrough, RStyle.cwc] at hs ⊢
+    by_cases h1 : r.bt = 0 <;> by_cases h2 : r.pt = 0 <;> by_cases h4 : r.bb = 0 <;> by_cases h5 : r.pb = 0 <;>
+      by_cases h6 : r.minH = 0 <;> simp_all
+  have htg : topGroup (.mk V []) = [r.mt] := by
+    simp only [topGroup, topList, hVmt]; split <;> rfl
+  refine ⟨?_, hthru, ?_, ?_, ?_, ?_⟩
+  · simp [vFinish, hs]
+  · show (vStart r y0 adjIn).p = _
+    rw [hp, htg]
+  · show V.top = _
+    rw [htg, hVtop]
+  · simp only [botGroup, botList, VTree.v, hVmb]
+    simp only [vFinish, hs]
+    simp
+    split <;> rfl
+  · have hVhh : V.h = clampH (match r.height with
+        | .auto => 0
+        | .val v => v) r.minH r.maxH := by
+      rw [← hV]
+      simp only [finV, vFinish, LTree.box, hs, Bool.false_eq_true, if_false, if_true]
+      cases hh : r.height with
+      | val v => simp
+      | auto =>
+        simp only
+        congr 1
+        by_cases hcwc : r.cwc = true
+        · obtain ⟨hbt, hpt, _⟩ := cwc_true hcwc
+          simp only [vStart, hcwc, if_true, collapseMargin_nil, hbt, hpt]
+          split <;> grind
+        · have hcwc' : r.cwc = false := by simpa using hcwc
+          simp only [vStart, hcwc', Bool.false_eq_true, if_false, collapseMargin_nil]
+          split <;> grind
+    simp only [stackViols, stackViolsList, walkChildren, Walk.start, List.append_nil, List.nil_append]
+    simp only [heightCheck, hVh, hVminH, hVmaxH]
+    cases hh : r.height with
+    | val v =>
+      simp only [hh] at hVhh
+      exact expectEq_of_eq hVhh
+    | auto =>
+      simp only [hh] at hVhh
+      apply expectEq_of_eq
+      rw [hVhh]
+      congr 1
+      simp only [collapseSpec_nil]
+      split <;> grind
+
+mutual
+  theorem inv_solid : (R : RBox) → solid R = true → ∀ y0 adjIn, Inv y0 adjIn R
+    | .mk r [], h => inv_leaf r (by simpa [solid, solidList] using h)
+    | .mk r (c :: cs), h =>
+      have h' : solid c = true ∧ solidList cs = true := by simpa [solid, solidList] using h
+      inv_node r c cs (inv_solid c h'.1) (invList_solid cs h'.2)
+  theorem invList_solid : (cs : List RBox) → solidList cs = true → InvList cs
+    | [], _ => invList_nil
+    | c :: cs, h =>
+      have h' : solid c = true ∧ solidList cs = true := by simpa [solidList] using h
+      invList_cons c cs (inv_solid c h'.1) (invList_solid cs h'.2)
+end
+
+
+
+theorem vbox_eq (r : RStyle) (cs : List RBox) (y0 : Rat) (adjIn : List Rat) :
+    vbox y0 adjIn (.mk r cs) =
+      vFinish r y0 adjIn cs.isEmpty (vlist (vStart r y0 adjIn) cs).1 (vlist (vStart r y0 adjIn) cs).2 := by
+  rw [vbox]
+
+/-- root element: its top border edge is its own margin-top below the page content top -/
+theorem root_top (r : RStyle) (cs : List RBox) (hroot : r.isRoot = true) (hs : solid (.mk r cs) = true) :
+    (vtree (.mk r cs) (vbox 0 [] (.mk r cs)).tree).v.top = (vtree (.mk r cs) (vbox 0 [] (.mk r cs)).tree).v.mt := by
+  have h4 := (inv_solid (.mk r cs) hs 0 []).2.2.2.1
+  rw [h4]
+  rw [vbox_eq, vtree_finish]
+  have hcwc : r.cwc = false := by simp [RStyle.cwc, hroot]
+  simp only [topGroup, finV_topBarrier, hcwc, Bool.not_false, if_true, List.nil_append, collapseMargin_single, VTree.v]
+  grind
+
 end WR.C10
